@@ -1,0 +1,22 @@
+//go:build verif
+
+package badger
+
+// Contracts for the govc verifier (/verif). Comment-only.
+
+// assumed (not verified): copying the badger options into their JSON form writes only its receiver
+//@ func (bo *badgerOptions) Marshal
+//@   opts trusted
+//@   ensures forall q *badgerOptions :: q != bo ==> *q == old(*q)
+//@   modifies heap(badgerOptions)
+
+// ---- C15: the section's saved form ----
+//@ func (cfg *Config) toJSONConfig
+//@   property C15
+//@   requires cfg != nil
+//@   ensures res != nil && fresh(res)
+//@   ensures [folder-omitted-when-default] res.Folder == ite(cfg.Folder != DefaultSubFolder, cfg.Folder, "")
+//@   ensures [gc-discard-ratio] res.GCDiscardRatio == cfg.GCDiscardRatio
+//@   ensures [gc-interval] res.GCInterval == cfg.GCInterval.String()
+//@   ensures [gc-sleep] res.GCSleep == cfg.GCSleep.String()
+//@   modifies nothing
